@@ -90,7 +90,7 @@ def shrink(plan):
 def new_stats():
     return {"plans": 0, "cases": 0, "runs": 0, "solutions": 0, "brute": 0, "brute_combos": 0, "fired": {},
             "ge2": 0, "novel": 0, "planted_found": 0, "adv_sets_differ_order": 0, "shapes": set(), "empty": 0,
-            "genes": {}, "faults": 0, "truncated": 0}
+            "genes": {}, "faults": 0, "truncated": 0, "realigned_indel_cases": 0}
 
 
 def count_evaluations(plan, out):
@@ -109,6 +109,7 @@ def update_stats(acc, plan, out):
         for k, v in st["genes"].items():
             acc["genes"][k] = acc["genes"].get(k, 0) + v
         acc["shapes"].update(st["shapes"])
+        acc["realigned_indel_cases"] += st.get("realigned_indel_cases", 0)
 
 
 def sample_view(plan, out):
@@ -132,6 +133,7 @@ def evidence(acc):
             "runs": acc["runs"],
             "solutions_judged": acc["solutions"],
             "brute_force_references": acc["brute"],
+            "cases_with_realigned_indel_counts": acc["realigned_indel_cases"],
             "allele_multisets_enumerated": acc["brute_combos"],
             "fault_kinds_fired": acc["fired"],
             "genes": acc["genes"],
@@ -329,9 +331,15 @@ def run_case(case, seg, viol, unsound, stats, sample):
     profile = Profile("test", gap=case["gap"])
     stats["cases"] += 1
     detail0 = {"gene": gname, "structure": cn, "planted": planted, "mode": mode, "gap": case["gap"]}
+    # evidence as the alignment reader delivers it: catalogued indels counted by the realigner on its own
+    # read set (another depth than the pile-up, same supporting fraction)
+    indels = SL.realigned_table(gene, table, rng.choice([2, 3])) if rng.random() < 0.4 else None
+    if indels:
+        stats["realigned_indel_cases"] = stats.get("realigned_indel_cases", 0) + 1
+        detail0["realigned_indels"] = [[p_, o_, v_] for (p_, o_), v_ in sorted(indels.items())][:4]
 
     def call():
-        cov = SL.make_coverage(gene, table, profile)
+        cov = SL.make_coverage(gene, table, profile, indels=indels)
         cns = CNSolution(gene, 0, cn)
         sols = MJ.estimate_major(gene, cov, cns, "cbc")
         alleles, fcov = MJ._filter_alleles(gene, cov, cns)
@@ -438,7 +446,7 @@ def run_case(case, seg, viol, unsound, stats, sample):
     # --- history: the same evidence object was used for another structure before (genotype() does that
     #     whenever the structure stage returns several solutions)
     SIM.reset({"max_solves": 4000, "max_wall": 90.0, "monitor": True})
-    cov_h = SL.make_coverage(gene, table, profile)
+    cov_h = SL.make_coverage(gene, table, profile, indels=indels)
     other = list(cn) + ["1"] if len(cn) < 4 else list(cn)[:-1]
     try:
         MJ.estimate_major(gene, cov_h, CNSolution(gene, 0, other), "cbc")
